@@ -3,9 +3,11 @@ import io
 import logging
 import math
 import random
+import re
+from fractions import Fraction
 
 from harness import common, picture
-from harness.common import Report, proof_gate, report_failure
+from harness.common import Report, afflit, listlit, proof_gate, qlit, report_failure, strlit, zlit
 
 GLYPHS = [".notdef", "space", "base0", "base1", "base2", "sq", "tri", "bar", "comp"]
 
@@ -325,6 +327,283 @@ def run_unsupported(report):
             return
 
 
+def _ot_graph_lit(font, paint, palette):
+    """Coq literal (Model.Paint over Qc) of a loaded otTables.Paint: the harness's own reading of the COLR
+    table (values as stored after compilation), independent of nanoemoji.paint.Paint.from_ot."""
+    from fontTools.ttLib.tables.otTables import PaintFormat as F
+
+    fmt = F(paint.Format)
+
+    def color(idx, alpha):
+        if idx == 0xFFFF:
+            return f"(C5 (-1)%Z (-1)%Z (-1)%Z {qlit(alpha)} None)"
+        c = palette[idx]
+        return f"(C5 {zlit(c.red)} {zlit(c.green)} {zlit(c.blue)} {qlit(Fraction(alpha) * Fraction(c.alpha, 255))} None)"
+
+    def stops(cl):
+        ext = {0: "EPad", 1: "ERepeat", 2: "EReflect"}[int(cl.Extend)]
+        return ext, listlit([f"(St {qlit(s.StopOffset)} {color(s.PaletteIndex, s.Alpha)})" for s in cl.ColorStop])
+
+    def pt(x, y):
+        return f"(P2 {qlit(x)} {qlit(y)})"
+
+    def cs(angle):
+        a = math.radians(angle)
+        return qlit(Fraction(math.cos(a))), qlit(Fraction(math.sin(a)))
+
+    def skew(xa, ya):
+        return qlit(Fraction(math.tan(-math.radians(xa)))), qlit(Fraction(math.tan(math.radians(ya))))
+
+    sub = lambda p: _ot_graph_lit(font, p, palette)
+    if fmt == F.PaintColrLayers:
+        layers = font["COLR"].table.LayerList.Paint[paint.FirstLayerIndex : paint.FirstLayerIndex + paint.NumLayers]
+        return f"(LLayers {listlit([sub(l) for l in layers])})"
+    if fmt == F.PaintSolid:
+        return f"(LSolid {color(paint.PaletteIndex, paint.Alpha)})"
+    if fmt == F.PaintLinearGradient:
+        e, s = stops(paint.ColorLine)
+        return f"(LLinear {e} {s} {pt(paint.x0, paint.y0)} {pt(paint.x1, paint.y1)} {pt(paint.x2, paint.y2)})"
+    if fmt == F.PaintRadialGradient:
+        e, s = stops(paint.ColorLine)
+        return f"(LRadial {e} {s} {pt(paint.x0, paint.y0)} {pt(paint.x1, paint.y1)} {qlit(paint.r0)} {qlit(paint.r1)})"
+    if fmt == F.PaintGlyph:
+        return f"(LGlyph {strlit(paint.Glyph)} {sub(paint.Paint)})"
+    if fmt == F.PaintColrGlyph:
+        return f"(LColrGlyph {strlit(paint.Glyph)})"
+    if fmt == F.PaintTransform:
+        t = paint.Transform
+        return f"(LTransform {afflit((t.xx, t.yx, t.xy, t.yy, t.dx, t.dy))} {sub(paint.Paint)})"
+    if fmt == F.PaintTranslate:
+        return f"(LTranslate {qlit(paint.dx)} {qlit(paint.dy)} {sub(paint.Paint)})"
+    if fmt == F.PaintScale:
+        return f"(LScale {qlit(paint.scaleX)} {qlit(paint.scaleY)} {sub(paint.Paint)})"
+    if fmt == F.PaintScaleAroundCenter:
+        return f"(LScaleC {qlit(paint.scaleX)} {qlit(paint.scaleY)} {pt(paint.centerX, paint.centerY)} {sub(paint.Paint)})"
+    if fmt == F.PaintScaleUniform:
+        return f"(LScaleU {qlit(paint.scale)} {sub(paint.Paint)})"
+    if fmt == F.PaintScaleUniformAroundCenter:
+        return f"(LScaleUC {qlit(paint.scale)} {pt(paint.centerX, paint.centerY)} {sub(paint.Paint)})"
+    if fmt == F.PaintRotate:
+        c, s = cs(paint.angle)
+        return f"(LRotate {c} {s} {sub(paint.Paint)})"
+    if fmt == F.PaintRotateAroundCenter:
+        c, s = cs(paint.angle)
+        return f"(LRotateC {c} {s} {pt(paint.centerX, paint.centerY)} {sub(paint.Paint)})"
+    if fmt == F.PaintSkew:
+        tx, ty = skew(paint.xSkewAngle, paint.ySkewAngle)
+        return f"(LSkew {tx} {ty} {sub(paint.Paint)})"
+    if fmt == F.PaintSkewAroundCenter:
+        tx, ty = skew(paint.xSkewAngle, paint.ySkewAngle)
+        return f"(LSkewC {tx} {ty} {pt(paint.centerX, paint.centerY)} {sub(paint.Paint)})"
+    if fmt == F.PaintComposite:
+        return f"(LComposite {zlit(int(paint.CompositeMode))} {sub(paint.SourcePaint)} {sub(paint.BackdropPaint)})"
+    raise TypeError(f"no model constructor for paint format {fmt}")
+
+
+_NUM = re.compile(r"-?\d+(?:\.\d+)?(?:[eE][-+]?\d+)?")
+
+
+def _d_signature(d):
+    return "".join(re.findall(r"[A-Za-z]", _NUM.sub("", d))), [float(x) for x in _NUM.findall(d)]
+
+
+def _glyph_by_d(font, V, names):
+    """signature of each glyph drawn through the harness's own font-to-viewBox map (straight-line glyphs)"""
+    from fontTools.pens.recordingPen import DecomposingRecordingPen
+    from fontTools.pens.transformPen import TransformPen
+
+    gs = font.getGlyphSet()
+    out = []
+    for n in names:
+        pen = DecomposingRecordingPen(gs)
+        gs[n].draw(TransformPen(pen, V))
+        letters, nums = "", []
+        for op, args in pen.value:
+            letters += {"moveTo": "M", "lineTo": "L", "closePath": "Z", "endPath": ""}[op]
+            for p in args:
+                nums += [p[0], p[1]]
+        out.append((n, (letters, nums)))
+    return out
+
+
+def _parse_matrix(s):
+    if not s:
+        return (1, 0, 0, 1, 0, 0)
+    m = re.fullmatch(r"\s*matrix\(([^)]*)\)\s*", s)
+    if m:
+        v = [Fraction(x) for x in m.group(1).replace(",", " ").split()]
+        assert len(v) == 6, s
+        return tuple(v)
+    m = re.fullmatch(r"\s*translate\(([^)]*)\)\s*", s)
+    if m:
+        v = [Fraction(x) for x in m.group(1).replace(",", " ").split()]
+        return (1, 0, 0, 1, v[0], v[1] if len(v) > 1 else 0)
+    m = re.fullmatch(r"\s*scale\(([^)]*)\)\s*", s)
+    if m:
+        v = [Fraction(x) for x in m.group(1).replace(",", " ").split()]
+        return (v[0], 0, 0, v[1] if len(v) > 1 else v[0], 0, 0)
+    raise ValueError(f"transform syntax not understood: {s!r}")
+
+
+def _parse_color(s):
+    from picosvg.svg_meta import ntos  # noqa: F401  (picosvg present)
+    from nanoemoji.colors import Color
+
+    if s is None:
+        return (0, 0, 0)
+    if s == "currentColor":
+        return (-1, -1, -1)
+    c = Color.fromstring(s)
+    return (c.red, c.green, c.blue)
+
+
+def _observe(root, glyph_sigs):
+    """The element tree as Coq literal of type list oel."""
+    from lxml import etree
+
+    ln = lambda el: etree.QName(el.tag).localname
+    defs = {}
+    for el in root.iter():
+        if ln(el) in ("linearGradient", "radialGradient"):
+            defs[el.get("id")] = el
+
+    def fnum(el, k, default=None):
+        v = el.get(k)
+        if v is None:
+            return default
+        return Fraction(v)
+
+    def stops(g):
+        out = []
+        for s in g:
+            if ln(s) != "stop":
+                continue
+            r, gg, b = _parse_color(s.get("stop-color"))
+            out.append(f"({qlit(Fraction(s.get('offset')))}, {zlit(r)}, {zlit(gg)}, {zlit(b)}, {qlit(Fraction(s.get('stop-opacity', '1')))})")
+        return listlit(out)
+
+    def fill(el):
+        f = el.get("fill")
+        op = Fraction(el.get("opacity", "1"))
+        m = re.fullmatch(r"url\(#([^)]+)\)", f or "")
+        if not m:
+            r, g, b = _parse_color(f)
+            return f"(OSolid {zlit(r)} {zlit(g)} {zlit(b)} {qlit(op)})"
+        g = defs[m.group(1)]
+        if g.get("gradientUnits") != "userSpaceOnUse":
+            return "ONone"
+        ext = {"pad": "EPad", "repeat": "ERepeat", "reflect": "EReflect"}[g.get("spreadMethod", "pad")]
+        gt = afflit(_parse_matrix(g.get("gradientTransform")))
+        if ln(g) == "linearGradient":
+            return f"(OLinear {ext} {stops(g)} {qlit(fnum(g, 'x1'))} {qlit(fnum(g, 'y1'))} {qlit(fnum(g, 'x2'))} {qlit(fnum(g, 'y2'))} {gt})"
+        cx, cy, r = fnum(g, "cx"), fnum(g, "cy"), fnum(g, "r")
+        fx, fy, fr = fnum(g, "fx", cx), fnum(g, "fy", cy), fnum(g, "fr", Fraction(0))
+        return f"(ORadial {ext} {stops(g)} {qlit(fx)} {qlit(fy)} {qlit(fr)} {qlit(cx)} {qlit(cy)} {qlit(r)} {gt})"
+
+    def glyph_of(d):
+        sig, nums = _d_signature(d)
+        for n, (s2, n2) in glyph_sigs:
+            if s2 == sig and len(n2) == len(nums) and all(abs(a - b) <= 1e-6 * (1 + abs(b)) for a, b in zip(nums, n2)):
+                return n
+        return "?"
+
+    def el_lit(el):
+        t = ln(el)
+        if t == "path":
+            return f"(OPath {afflit(_parse_matrix(el.get('transform')))} {strlit(glyph_of(el.get('d', '')))} {fill(el)})"
+        if t == "g":
+            kids = listlit([el_lit(k) for k in el])
+            if el.get("transform") is not None:
+                assert el.get("opacity") is None
+                return f"(OGroupT {afflit(_parse_matrix(el.get('transform')))} {kids})"
+            return f"(OGroupO {qlit(Fraction(el.get('opacity', '1')))} {kids})"
+        raise ValueError(f"unexpected element <{t}>")
+
+    return listlit([el_lit(k) for k in root if ln(k) != "defs"])
+
+
+def _wrap_fills(rng, g):
+    """put transform paints between some PaintGlyph and its fill (what nanoemoji writes for a transformed gradient)"""
+    from fontTools.ttLib.tables import otTables as ot
+
+    F = ot.PaintFormat
+    if isinstance(g, dict):
+        g = {k: _wrap_fills(rng, v) for k, v in g.items()}
+        if g.get("Format") == F.PaintGlyph and rng.random() < 0.4:
+            inner = g["Paint"]
+            k = rng.random()
+            if k < 0.4:
+                inner = dict(Format=F.PaintTransform, Paint=inner, Transform=(rng.choice([1, 0.75, 0.5]), rng.choice([0, 0.25]), rng.choice([0, -0.25]), rng.choice([1, 0.5]), rng.randint(-100, 100), rng.randint(-100, 100)))
+            elif k < 0.7:
+                inner = dict(Format=F.PaintTranslate, Paint=inner, dx=rng.randint(-200, 200), dy=rng.randint(-200, 200))
+            else:
+                inner = dict(Format=F.PaintScaleUniform, Paint=dict(Format=F.PaintTranslate, Paint=inner, dx=rng.randint(-50, 50), dy=rng.randint(-50, 50)), scale=rng.choice([0.5, 1.5]))
+            g["Paint"] = inner
+        return g
+    if isinstance(g, list):
+        return [_wrap_fills(rng, v) for v in g]
+    return g
+
+
+def run_traversal(report, n, rng):
+    """colr_to_svg._colr_v1_glyph_to_svg on generated paint graphs vs Model.SvgTree.to_svg (Corr.C13.tv_agree),
+    and the traversal theorem's conclusion evaluated on the same graphs (tv_prop)."""
+    import logging
+
+    from nanoemoji import colr_to_svg
+    from picosvg.geometric_types import Rect
+    from harness import picture
+
+    base_pal = [(0, 0, 0, 1.0), (1, 0, 0, 1.0), (0, 0.5, 0, 1.0), (0, 0, 1, 1.0), (1, 0.8, 0, 0.5)]
+    cases, metas = [], []
+    for i in range(n):
+        graphs = {"base2": _wrap_fills(rng, gen_graph(rng, len(base_pal), depth=2, allow_colrglyph=False))}
+        graphs["base0"] = _wrap_fills(rng, gen_graph(rng, len(base_pal)))
+        graphs["base1"] = _wrap_fills(rng, gen_graph(rng, len(base_pal)))
+        asc, desc = rng.choice([(800, -200), (896, -128), (1024, 0)])
+        try:
+            font = build_font(graphs, [base_pal], upem=1024, asc=asc, desc=desc)
+        except Exception:
+            continue
+        palette = font["CPAL"].palettes[0]
+        recs = {r.BaseGlyph: r for r in font["COLR"].table.BaseGlyphList.BaseGlyphPaintRecord}
+        env = listlit([f"({strlit(g)}, {_ot_graph_lit(font, r.Paint, palette)})" for g, r in sorted(recs.items())])
+        gs = font.getGlyphSet()
+        for g in ("base0", "base1"):
+            vb = rng.choice([(0, 0, 128, 128), (0, 0, 1024, asc - desc), (16, -32, 256, 128), (0, 0, 100, 100)])
+            width = font["hmtx"][g][0]
+            V = picture.ainv(picture.place_font(vb, asc, desc, width))
+            sigs = _glyph_by_d(font, V, ["sq", "tri", "bar", "comp"])
+            meta = dict(kind="corr", function="colr_to_svg._colr_v1_glyph_to_svg", glyph=g, view_box=list(vb), ascender=asc, descender=desc, advance=width,
+                        graphs={k: repr(v)[:1500] for k, v in graphs.items()})
+            logging.disable(logging.WARNING)
+            try:
+                root = colr_to_svg._colr_v1_glyph_to_svg(font, gs, lambda _g: Rect(*vb), recs[g])
+                obs = _observe(root, sigs)
+                from lxml import etree
+
+                meta["svg"] = etree.tostring(root).decode()[:3000]
+                obs_lit = f"(Some {obs})"
+                ident = "(OPath (A6 (q (1) 1) (q (0) 1) (q (0) 1) (q (1) 1) (q (0) 1) (q (0) 1))"
+                for k in ("OGroupT", "OGroupO", "OLinear", "ORadial", "OSolid"):
+                    if k in obs:
+                        report.hist("traversal.constructs", k)
+                if obs.count("(OPath ") > obs.count(ident):
+                    report.hist("traversal.constructs", "path with transform attribute")
+            except Exception as ex:
+                meta["raised"] = f"{type(ex).__name__}: {ex}"
+                obs_lit = "None"
+            finally:
+                logging.disable(logging.NOTSET)
+            rect = f"(@Rect QcOps {qlit(vb[0])} {qlit(vb[1])} {qlit(vb[2])} {qlit(vb[3])})"
+            cases.append(f"({rect}, {qlit(asc)}, {qlit(desc)}, {qlit(width)}, {env}, {_ot_graph_lit(font, recs[g].Paint, palette)}, {obs_lit})")
+            metas.append(meta)
+            report.count(("traversal", g, repr(graphs[g]), vb), True)
+            report.hist("traversal.outcome", "raised" if obs_lit == "None" else "tree")
+    common.evaluate_corr(report, ["Model.Field Model.Affine Model.Color Model.Paint Corr.Common Corr.C16 Corr.C13"], "Corr.C13", "traversal", "tv_case", cases, metas, "tv_agree", "tv_prop", shard=40)
+
+
+
 def main(argv):
     common.setup_env()
     tier = common.tier_from_args(argv)
@@ -334,10 +613,15 @@ def main(argv):
         "(incl. rotated p2), Radial (r0 > 0, c0 != c1), Glyph over simple and composite glyphs, ColrGlyph, Transform, Translate, "
         "Scale*, Rotate*, Skew*, Composite(SRC_IN, black)} x extend modes x 1-3 palettes x viewBoxes; colr_to_svg's output is "
         "rendered by the independent SVG interpreter and compared layer by layer with the COLR rendering of the graph; COLRv0 "
-        "fonts likewise; every unsupported paint format must raise or warn"
+        "fonts likewise; every unsupported paint format must raise or warn; model correspondence: the element tree "
+        "colr_to_svg._colr_v1_glyph_to_svg writes (path transform attributes, glyph drawn, solid / linear / radial fill geometry, "
+        "<g transform>, <g opacity>) against Model.SvgTree.to_svg evaluated in Coq on the same graphs (read from the compiled "
+        "COLR table by the harness), and the traversal theorem's conclusion evaluated on them"
     )
     st = proof_gate(report)
     rng = random.Random(report.seed)
+    if common.vo_ok("Corr/C13.v"):
+        run_traversal(report, 40 if tier == "quick" else 800, random.Random(rng.getrandbits(48)))
     run_v1(report, 40 if tier == "quick" else 1000, rng)
     run_v0(report, 15 if tier == "quick" else 300, rng)
     if not report.violations:
@@ -346,6 +630,7 @@ def main(argv):
     if not st["proof_ok"] and not report.violations:
         report.violation("proof", dict(kind="proof", theorem="Props/C13.v", detail=report.notes.get("proof_failure")), found_input=False)
     report.open_obligations = [
-        "the recursive walk of _colr_v1_paint_to_svg is not modelled as a whole in Coq; its geometric steps are (C13 theorems, C16 transformed/decompose, C01 gradient covariance) and the walk is judged end to end on every generated graph",
+        "the traversal theorem is over exact fields: the three-decimal rounding of attribute values and the radial gradient's uniform/remainder split are covered by the correspondence tolerances and the end-to-end oracle, not by a theorem",
+        "a solid or gradient met outside a PaintGlyph, nested PaintGlyph fills and composite modes other than SRC_IN-over-black are outside the modelled (supported) class: to_svg answers None there",
     ]
     return report.finish()
